@@ -181,6 +181,41 @@ def correspond(ctx, corr):
                 corr.violate("event:retry-fields", "retry %d %s" % (d, cc.map_tok(m)), fw, fo,
                              "retry_decode yields other fields than decoding the frame with the map")
         lines.append("retry %d %s" % (d, cc.map_tok(m))); impl.append(ans)
+    # ---- several events seen before the scan is over: a bus monitor keeps the ambiguous events it could not decode,
+    # learns the instance types, then retries them ALL, in any order - each is decoded from ITS OWN frame
+    # (strengthening after seeded round 6)
+    nbatch = 0
+    for _ in range(150 if not ctx.thorough else 800):
+        k = rng.randrange(2, 7)
+        kept = []
+        for _j in range(k):
+            sa, inum, info = rng.choice([5, 0, 63, rng.randrange(64)]), rng.randrange(32), rng.randrange(1024)
+            d = (sa << 17) | (1 << 15) | (inum << 10) | info
+            amb = command.from_frame(ForwardFrame(24, d), dev_inst_map=rng.choice([None, DeviceInstanceTypeMapper()]))
+            if isinstance(amb, dg.AmbiguousInstanceType):
+                kept.append((d, sa, inum, amb))
+        m = {}
+        for d, sa, inum, _a in kept:
+            if rng.random() < 0.8:
+                m[(sa, inum)] = rng.choice(types_)
+        mp = DeviceInstanceTypeMapper(dict(m))
+        rng.shuffle(kept)
+        for d, sa, inum, amb in kept:
+            r = amb.retry_decode(mp)
+            direct = command.from_frame(ForwardFrame(24, d), dev_inst_map=DeviceInstanceTypeMapper(dict(m)))
+            ans = "none" if r is None else cc.cmd_canon(lambda: r)
+            want = "none" if isinstance(direct, dg.AmbiguousInstanceType) else cc.cmd_canon(lambda: direct)
+            if ans != want or (r is not None and obs_of(r) != obs_of(direct)):
+                corr.violate("event:retry", {"retry": d, "map": cc.map_tok(m), "kept alongside":
+                                             [x[0] for x in kept if x[0] != d]}, want, ans,
+                             "an ambiguous event kept while others were decoded is retried from another frame's bits")
+            fa = cc.cmd_canon(lambda: amb)
+            if ("|ok 24 %d|" % d) not in fa:
+                corr.violate("event:retry", {"kept ambiguous event of frame": d}, "frame %d" % d, fa,
+                             "a kept ambiguous event no longer carries its own frame")
+            lines.append("retry %d %s" % (d, cc.map_tok(m))); impl.append(ans)
+            nbatch += 1
+    corr.count("retry_kept_events", nbatch)
     # ---- mapper add_type / get_type through the three argument forms ----
     mods = {1: pushbutton, 3: occupancy, 4: light}
     for _ in range(400):
